@@ -182,8 +182,19 @@ def h_values(shape):
             obs.append(("k2:neg", all(abs(x + y) <= 1e-6 * (1 + abs(y)) for x, y in zip(sn, s0))))
             w2 = wf.change_duration(2 * d - 1)  # every other sample of the longer copy falls on a sample time of the original
             s2 = [float(x) for x in w2.samples.as_array(detach=True)]
-            obs.append(("k2:change_duration", len(s2) == 2 * d - 1 and abs(s2[0] - s0[0]) <= 1e-6 and abs(s2[-1] - s0[-1]) <= 1e-6
-                        and type(w2) is type(wf)))
+            # (the end samples coincide when the first / last interpolation point sits on the first / last nanosecond)
+            ends = kw.get("times") is None or (min(kw["times"]) == 0.0 and max(kw["times"]) == 1.0)
+            obs.append(("k2:change_duration", len(s2) == 2 * d - 1 and type(w2) is type(wf)
+                        and (not ends or (abs(s2[0] - s0[0]) <= 1e-6 and abs(s2[-1] - s0[-1]) <= 1e-6))))
+            # "changing the duration preserves the defining parameters" (values, time fractions, interpolator and its options): the
+            # copy IS the waveform built directly with the new duration, also after a detour through a third duration
+            for nd in (2 * d - 1, d + 3, 7 * d + 3):
+                ref = InterpolatedWaveform(nd, list(shape["values"]), **kw)
+                sr = [float(x) for x in ref.samples.as_array(detach=True)]
+                for wn in (wf.change_duration(nd), wf.change_duration(11).change_duration(nd)):
+                    sw = [float(x) for x in wn.samples.as_array(detach=True)]
+                    obs.append(("k2:change_duration_is_direct_construction", len(sw) == nd and all(abs(x - y) <= 1e-9 * (1 + abs(y)) for x, y in zip(sw, sr))
+                                and np.array_equal(np.asarray(wn.data_points, dtype=float), np.asarray(ref.data_points, dtype=float))))
             import pulser.json.coders as co
             import json as _json
 
@@ -409,6 +420,10 @@ def kernels(tier):
                        ([1.0, 3.0, 0.5, 2.0], dict(times=[0.0, 0.2, 0.7, 1.0])), ([1.0, 3.0, 0.5, 2.0], dict(interpolator="interp1d", kind="quadratic")),
                        ([0.0, 0.0, 0.0], dict())):
         ks.append(("values", dict(cls="interp", dur=21, values=values, kw=kw)))
+    # time fractions that do not fall on whole nanoseconds of the original duration (the rounded points are not the parameters)
+    for dur, values, kw in ((21, [1.0, 3.0, 0.5, 2.0], dict(times=[0.0, 0.33, 0.71, 1.0])), (16, [0.0, 2.0, -1.0], dict(times=[0.1, 0.45, 0.9])),
+                            (12, [0.0, 5.0, 1.0], dict(times=[0.1, 0.45, 0.9], interpolator="interp1d", kind="linear", fill_value="extrapolate"))):
+        ks.append(("values", dict(cls="interp", dur=dur, values=values, kw=kw)))
     ks.append(("pulse", dict(what="init")))
     for kind in ("custom", "ramp", "const"):
         for n in range(2, 5 if quick else 7):
